@@ -2,6 +2,7 @@ package skipmon
 
 import (
 	"fmt"
+	"math/rand"
 	"testing"
 	"time"
 
@@ -181,6 +182,18 @@ func runBig(c caseT) {
 			}
 			ok = ok && audit()
 		}
+	case "fill":
+		// N fresh keys are put one after the other (the history is chosen so that the node-height generator, which is
+		// seeded from the clock, produces one of its most extreme draws at the last puts), then everything is audited
+		for i := 1; ok && i <= b.N; i++ {
+			k := int((uint64(i) * 2654435761) % 1_000_000_007) // distinct for distinct i: the i-th put makes the i-th new node
+			ok = put(k, i)
+		}
+		ok = ok && audit()
+		for i := 0; ok && i < 2000 && len(live) > 0; i++ {
+			ok = rem(live[r.IntN(len(live))])
+		}
+		ok = ok && audit()
 	case "oscillate":
 		lo, hi := max(b.W-b.W/5-20, 0), b.W+b.W/5+20
 		fresh := func() int {
@@ -249,6 +262,41 @@ func mix64(x uint64) uint64 {
 	return x
 }
 
+// extremeDraws looks, for a few clock seeds, for the position of the largest and of the smallest value among the first
+// draws of the seeded generator the list uses for node heights (math/rand's seeded source is a documented,
+// reproducible stream). It is only used to choose histories worth running: a list whose k-th new node gets the
+// tallest - or the shortest - height it will ever get. The verdicts come from the map model as everywhere else.
+func extremeDraws(seeds []int64, draws int) (out []struct {
+	hseed int64
+	n     int
+	what  string
+}) {
+	var bestHi, bestLo struct {
+		hseed int64
+		n     int
+		v     int64
+	}
+	bestLo.v = 1<<63 - 1
+	for _, h := range seeds {
+		src := rand.NewSource(epoch.Add(time.Duration(h)).UnixNano())
+		for i := 1; i <= draws; i++ {
+			v := src.Int63()
+			if v > bestHi.v {
+				bestHi.hseed, bestHi.n, bestHi.v = h, i, v
+			}
+			if v < bestLo.v {
+				bestLo.hseed, bestLo.n, bestLo.v = h, i, v
+			}
+		}
+	}
+	type e = struct {
+		hseed int64
+		n     int
+		what  string
+	}
+	return []e{{bestHi.hseed, bestHi.n, "largest"}, {bestLo.hseed, bestLo.n, "smallest"}}
+}
+
 func bigCases(t *testing.T) {
 	n := 0
 	run := func(c caseT) {
@@ -265,6 +313,17 @@ func bigCases(t *testing.T) {
 	}{{"int", -1}, {"rev", +1}, {"int", +1}, {"str", -1}} {
 		for _, w := range []int{64, 1000}[:common.Pick(1, 2)] {
 			run(caseT{Site: "big", Order: o.order, HSeed: int64(i+1)*9_000_011 + int64(w), Big: &bigT{Family: "window", N: rounds, W: w, Dir: o.dir, RSeed: uint64(i)}})
+		}
+	}
+	if common.Batch == 0 {
+		var seeds []int64
+		for i := 0; i < common.Pick(96, 400); i++ {
+			seeds = append(seeds, int64(i+1)*11_000_003)
+		}
+		for _, x := range extremeDraws(seeds, 1_000_000) {
+			c := caseT{Site: "big", Order: "int", HSeed: x.hseed, Big: &bigT{Family: "fill", N: x.n + 50, W: x.n, RSeed: uint64(x.n)}}
+			synctest_run(t, c)
+			rec.Count("steered_extreme_draw_histories", 1)
 		}
 	}
 	ths := []int{1097, 2981, 8103, 22026, 1024, 4096, 8192, 16384, 59874, 65536}
